@@ -21,6 +21,7 @@ import (
 	"fmt"
 	"io"
 	"log"
+	"os"
 
 	"perkeep.org/pkg/blob"
 )
@@ -92,6 +93,12 @@ func (ds *Storage) ReceiveBlob(ctx context.Context, blobRef blob.Ref, source io.
 
 	stat, err = ds.fs.Lstat(fileName)
 	if err != nil {
+		if os.IsNotExist(err) {
+			// The blob was stored (the rename succeeded) and then
+			// removed by a concurrent RemoveBlobs.
+			success = true
+			return blob.SizedRef{Ref: blobRef, Size: uint32(written)}, nil
+		}
 		return blob.SizedRef{}, err
 	}
 	if stat.Size() != written {
